@@ -254,7 +254,7 @@ func TestEngineQuery(t *testing.T) {
 			cl = call{"late-erc20-transfer", lateToken, tr(c.wallets[2].GetEthAddress(), int64(1+r.Intn(5))), 0, true, nil}
 		}
 		if cl.to != nil && r.Chance(1, 4) { // some calls carry an access list (addresses and slots, touched or not)
-			cl.al = ethtypes.AccessList{{Address: *cl.to, StorageKeys: []common.Hash{{}, common.BigToHash(big.NewInt(1))}}, {Address: c.wallets[3].GetEthAddress()}}
+			cl.al = ethtypes.AccessList{{Address: *cl.to, StorageKeys: []common.Hash{{}, common.BigToHash(big.NewInt(1))}}, {Address: c.wallets[3].GetEthAddress(), StorageKeys: []common.Hash{}}}
 			cl.name += "+al"
 		}
 		if lateToken != nil && i%3 == 0 {
